@@ -147,7 +147,7 @@ def atom_key(a):
     if type(a).__name__ == "Isotope":
         A = a.isotope
         a = a.element
-    return (a.table, _py(a.number), _py(A), _py(q))
+    return (REAL2EV.get(a.table, a.table), _py(a.number), _py(A), _py(q))
 
 
 def _py(x):
@@ -155,6 +155,7 @@ def _py(x):
     return x.item() if isinstance(x, np.generic) else x
 
 
+REAL2EV = {}    # name a table really carries -> name the events use for it (per-run name map)
 ALIAS = {}      # private table name -> "public" while a private table is digested
 
 
@@ -168,7 +169,7 @@ def canon_atom(a):
 
 def table_name_of(t):
     try:
-        return t[1].table
+        return REAL2EV.get(t[1].table, t[1].table)
     except Exception:  # noqa: BLE001
         return "?"
 
